@@ -513,7 +513,7 @@ struct channel_multiplier_unsigned {
     using result_type = ChannelValue;
     auto operator()(ChannelValue a, ChannelValue b) const -> ChannelValue
     {
-        return ChannelValue(static_cast<typename base_channel_type<ChannelValue>::type>(a / double(channel_traits<ChannelValue>::max_value()) * b));
+        return ChannelValue(static_cast<typename base_channel_type<ChannelValue>::type>(a * double(b) / double(channel_traits<ChannelValue>::max_value())));
     }
 };
 
